@@ -4,6 +4,7 @@
 package venum
 
 import (
+	"encoding/json"
 	"fmt"
 	"runtime"
 	"strings"
@@ -20,9 +21,32 @@ type E struct {
 	deadline time.Time
 	MaxSamp  int
 	Stopped  bool
+	only     string // replay: canonical JSON of the recorded case; every other violation is ignored
 }
 
+func canon(v any) string {
+	b, err := json.Marshal(v)
+	if err != nil {
+		return ""
+	}
+	var x any
+	if json.Unmarshal(b, &x) != nil {
+		return ""
+	}
+	b, _ = json.Marshal(x)
+	return string(b)
+}
+
+// New starts an enumeration. With -replay the enumeration runs unsharded and only a violation whose
+// replay record equals the recorded one is reported (the recorded case is identified by its record,
+// whatever shape the harness gave it).
 func New(name string, a *vh.Args) *E {
+	if a.Replay != "" {
+		a.ShardI, a.ShardN = 0, 1
+		e := &E{Out: &vh.Out{Name: name, Exhaustive: true, ViolCounts: map[string]int64{}, Extra: map[string]any{}}, nt: map[string]struct{}{}, first: map[string]bool{}, start: time.Now(), deadline: a.Deadline(), MaxSamp: 6}
+		e.only = canon(vh.LoadReplay(a.Replay))
+		return e
+	}
 	return &E{Out: &vh.Out{Name: name, Exhaustive: true, ViolCounts: map[string]int64{}, Extra: map[string]any{}}, nt: map[string]struct{}{}, first: map[string]bool{}, start: time.Now(), deadline: a.Deadline(), MaxSamp: 6}
 }
 
@@ -53,6 +77,9 @@ func (e *E) Sample(v any) {
 
 // Violation records a violation; only the first per key keeps its replay.
 func (e *E) Violation(key, what string, replay any) {
+	if e.only != "" && canon(replay) != e.only {
+		return
+	}
 	e.Out.ViolCounts[key]++
 	if !e.first[key] {
 		e.first[key] = true
